@@ -38,6 +38,7 @@ class Unsupported(EngineError):
 # global current context (one per process, one path at a time)
 
 _CTX: "Ctx | None" = None
+_DEBUG = bool(__import__("os").environ.get("PYVC_DEBUG"))
 
 
 def ctx() -> "Ctx":
@@ -113,8 +114,14 @@ class Ctx:
             r = self.solver.check()
         finally:
             self.solver.pop()
-        self.solver_secs += time.time() - t0
+        dt = time.time() - t0
+        self.solver_secs += dt
         self.n_queries += 1
+        if dt > 1.0 and _DEBUG:
+            import sys
+
+            fr = [f"{f.name}:{f.lineno}" for f in traceback.extract_stack(limit=9)[:-1]]
+            print(f"[pyvc] slow query {dt:.1f}s -> {r} at {' < '.join(reversed(fr))}", file=sys.stderr)
         return r
 
     def add(self, cond) -> None:
